@@ -144,10 +144,10 @@ def run_unit(name, rlimit=None, extra_args=(), seed=None, keep=True):
 
 
 if __name__ == '__main__':
-    r = run_unit(sys.argv[1], rlimit=(sys.argv[2] if len(sys.argv) > 2 else None))
+    r = run_unit(sys.argv[1], rlimit=next((x for x in sys.argv[2:] if x.replace('.', '').isdigit()), None))
     print('unit=%s status=%s verified=%s errors=%s smt_ms=%s wall=%.1fs' % (r['unit'], r['status'], r.get('verified'), r.get('errors'), r.get('smt_ms'), r.get('wall_s', 0)))
     for f in r.get('failures', []):
-        print('--', f['obligation'], '|', f['msg'], '|', f['origins'])
+        print('--', f['obligation'], '|', f['msg'][:200], '|', f['origins'])
         if '-v' in sys.argv or f['class'] == 'other': print(f['text'][:1500])
     if r['status'] in ('gen-error', 'tool-error', 'timeout', 'vacuous') and not r.get('failures'):
         print(r.get('reason', '')[:3000])
